@@ -29,14 +29,25 @@ Local Open Scope string_scope.
 (* 1. Every start site of the regenerated inventory is known to the model with the tracking the model
    relies on; a class awaited through a WaitGroup is registered with one at its site; a class the model
    takes to be registered under lock + flag (provider workers, the refresh manager's loop and requests)
-   is registered after an RLock() in the same function. *)
+   is registered after an RLock() in the same function; and no goroutine registered by an explicit Add
+   has a path on which it ends without the Done calls it owes (gs_done, computed by go2coq from the body
+   the goroutine runs: `defer X.Done()` before any return, a final unconditional X.Done(), callees). *)
 Theorem c14_inventory_covered :
   forall s, In s sites ->
     exists r, site_row s = Some r /\ gs_track s = r_track r /\ gs_guard s = r_guard r /\
       (class_await (r_class r) = AwWaitGroup -> gs_track s <> "untracked") /\
-      (class_guarded (r_class r) = true -> gs_guard s <> "").
+      (class_guarded (r_class r) = true -> gs_guard s <> "") /\
+      gs_done s <> DoneSome.
 Proof. exact inventory_covered. Qed.
 Print Assumptions c14_inventory_covered.
+
+(* ... in particular, for every component, every site of a class its Close awaits reaches Done on every
+   path: the fact 2c uses.  (With one gs_done = DoneSome this theorem, and with it 2c for the components,
+   no longer holds.) *)
+Theorem c14_done_on_every_path :
+  forall c, d_done_all (desc_of c) = true.
+Proof. exact done_on_every_path. Qed.
+Print Assumptions c14_done_on_every_path.
 
 (* ... and no class is left without an owner: a class joined by a parent has a parent that is itself
    awaited by Close, joined by its caller, or ends by itself. *)
@@ -63,6 +74,36 @@ Theorem c14_close_waits_components :
     c <> CValueStore -> run (desc_of c) init evs = Some s -> closers s t = CReturned -> pre s = 0 /\ post s = 0.
 Proof. exact p_close_waits_comp. Qed.
 Print Assumptions c14_close_waits_components.
+
+(* 2c. Close does return: on an instance on which Close has not been called yet, whatever is registered at
+   that moment, Close by any thread has a continuation in which it returns without panic — PROVIDED every
+   registered goroutine reaches its Done on every path (d_done_all).  In the model a goroutine of a protocol
+   without that property may end without decrementing (EExitLeak); the hypothesis is what rules it out. *)
+Theorem c14_close_returns :
+  forall d evs s t,
+    d_guard d <> GuardNone -> d_once d <> OnceChanSelect -> d_done_all d = true ->
+    run d init evs = Some s -> ctor_done s = true -> (forall x, closers s x = CIdle) ->
+    exists evs' s', run d s evs' = Some s' /\ closers s' t = CReturned /\ panicked s' = false.
+Proof. exact p_first_close_returns. Qed.
+Print Assumptions c14_close_returns.
+
+(* ... for the components the hypothesis is discharged by the inventory fact c14_done_on_every_path *)
+Theorem c14_close_returns_components :
+  forall c evs s t,
+    c <> CValueStore -> run (desc_of c) init evs = Some s -> ctor_done s = true -> (forall x, closers s x = CIdle) ->
+    exists evs' s', run (desc_of c) s evs' = Some s' /\ closers s' t = CReturned /\ panicked s' = false.
+Proof. exact p_first_close_returns_comp. Qed.
+Print Assumptions c14_close_returns_components.
+
+(* ... and the hypothesis is needed: once a registered goroutine has ended without Done, no Close ever returns
+   again, whatever happens (the sweeping provider's protocol with d_done_all = false as witness). *)
+Theorem c14_lost_done_close_never_returns :
+  (forall d s, d_once d <> OnceChanSelect -> lost_inv s ->
+     forall evs s', run d s evs = Some s' -> forall t, closers s' t <> CReturned) /\
+  (exists s, run desc_provider_lost_done init [ESpawn; ECtorDone; EExitLeak] = Some s /\
+     forall evs s', run desc_provider_lost_done s evs = Some s' -> forall t, closers s' t <> CReturned).
+Proof. exact (conj lost_done_close_never_returns lost_done_witness). Qed.
+Print Assumptions c14_lost_done_close_never_returns.
 
 (* 2b. Without a registration guard (value store: StartGC may be called at any time) what holds is: when the
    wait of Close's body is over, every goroutine registered before the closing flag is gone.
